@@ -11,6 +11,7 @@ mod matrix;
 mod mutate;
 mod parser_check;
 mod pihash;
+mod protocol;
 mod pubinput;
 mod queries;
 mod resmon;
@@ -73,6 +74,7 @@ fn main() {
         "coeffs" => Some(coeffs::run(&args)),
         "pubinput" => Some(pubinput::run(&args)),
         "parser" => Some(parser_check::run(&args)),
+        "protocol" => Some(protocol::run(&args)),
         _ => vcomp::dispatch(&args),
     };
     match rep {
